@@ -472,7 +472,7 @@ type PktReq struct {
 }
 
 type KEvent struct {
-	Kind  uint8 // 1 update 2 delete 3 ringbuf
+	Kind  uint8 // 1 update 2 delete 3 ringbuf 4 sockmap/sockhash lookup (key logged, lookup itself returns NULL)
 	MapID uint8
 	Key   []byte
 	Val   []byte
